@@ -327,6 +327,7 @@ pub fn property() -> Property {
             signature: no_signature,
             essential: &["state_changed_before_draw", "unknown_length", "len_lt_pos", "finished", "eta_nonzero", "rate_nonzero", "elapsed_hours", "reset"],
             workers: w,
+            decode: None,
         })],
     }
 }
